@@ -145,6 +145,8 @@ impl TransactionManager {
     pub fn begin_with_isolation(&self, isolation_level: IsolationLevel) -> TxId {
         let tx_id = TxId::new(self.next_tx_id.fetch_add(1, Ordering::Relaxed));
         let epoch = EpochId::new(self.current_epoch.load(Ordering::Acquire));
+        #[cfg(grafeo_verif)]
+        grafeo_common::verif::yield_point("txmgr.begin.between_epoch_and_insert");
 
         let info = TxInfo::new(epoch, isolation_level);
         self.transactions.write().insert(tx_id, info);
@@ -223,6 +225,12 @@ impl TransactionManager {
     /// - There's a write-write conflict with another committed transaction
     /// - (Serializable only) There's a read-write conflict (SSI violation)
     pub fn commit(&self, tx_id: TxId) -> Result<EpochId> {
+        #[cfg(grafeo_verif)]
+        if grafeo_common::verif::fail_point("txmgr.commit") {
+            return Err(Error::Transaction(TransactionError::WriteConflict(
+                "injected by verification fail point".to_string(),
+            )));
+        }
         let mut txns = self.transactions.write();
         let committed = self.committed_epochs.read();
 
